@@ -676,7 +676,7 @@ func checkC08(c *Ctx) int {
 				if variantK {
 					w.cache, w.multi, w.labelBase = 64, true, bigBase
 				}
-				w.isoEvery = c.pick(24, 6)
+				w.isoEvery = c.pick(24, 12)
 				if lo.name == "small6/C" && wi >= nw-2 {
 					// ingestion that leaves the bookkeeping to the client (C08-14)
 					bare := wi == nw-1
